@@ -762,6 +762,7 @@ CS101_FileServer_handleAsdu(void* parameter, IMasterConnection connection,  CS10
                         {
                             self->currentSectionNumber = 1;
                             self->currentSectionOffset = 0;
+                            self->sectionChecksum = 0;
                             self->fileChecksum = 0;
                             self->currentSectionSize = self->selectedFile->getSectionSize(self->selectedFile, 0);
 
